@@ -311,7 +311,7 @@ pub fn run(ctx: &Ctx) -> i32 {
             acc.sample(json!({"program": p.name, "bytes": p.text.len()}));
         }
     });
-    let n = ctx.tier.pick(1500u64, 40000u64);
+    let n = ctx.tier.pick(1500u64, 120000u64);
     run_workload(ctx, &mut acc, "generated", n, |k, rng, acc| {
         let cfg = if k % 3 == 0 { Cfg::hostile() } else { Cfg::normal() };
         let mut b = Builder::new(rng, cfg);
